@@ -969,15 +969,6 @@ func (it *Interp) runPath(j job, prefix []dec) {
 			default:
 				buf := make([]byte, 4096)
 				n := runtime.Stack(buf, false)
-				if os.Getenv("SYMGO_CRASHSTACK") != "" {
-					big := make([]byte, 65536)
-					fmt.Fprintf(os.Stderr, "%s\n", big[:runtime.Stack(big, false)])
-					for pk, st := range it.pkgInit {
-						if st == 1 {
-							fmt.Fprintf(os.Stderr, "package init in progress: %s\n", pk.Pkg.Path())
-						}
-					}
-				}
 				it.jr.Inconclusive = append(it.jr.Inconclusive, fmt.Sprintf("engine-crash: %v at %s | %s", r, it.where(), firstFrames(string(buf[:n]))))
 			}
 		}
